@@ -311,7 +311,9 @@ func gen(r *vlib.R, n int, tier string, emit func(string)) {
 	for n > 0 {
 		size, mn, mx, valid := genNew(r)
 		en := !r.Chance(1, 6)
-		emit(fmt.Sprintf("fail new %d %d %d %s", size, mn, mx, vlib.B(en)))
+		// unrelated settings of the same config must not bend the failure-cache bounds
+		expire := vlib.Pick(r, []int{600, 600, 0, 1, 4, 5, 20, 59, 120, 299, 301, 86400})
+		emit(fmt.Sprintf("fail new %d %d %d %s %d", size, mn, mx, vlib.B(en), expire))
 		n--
 		g := &caseGen{r: r, emit: emit, n: &n, pool: poolFor(r, vlib.Pick(r, bases)), t: 1000 * sec, live: valid}
 		g.mn, g.mx = cfgMin, cfgMax
@@ -378,6 +380,10 @@ func (g *caseGen) wireOf(q qspec) string {
 
 func (g *caseGen) one() {
 	r := g.r
+	if r.Chance(1, 90) {
+		g.probe()
+		return
+	}
 	switch k := r.Intn(100); {
 	case k < 14: // record a question (often one recorded before: idempotent / renewal)
 		q := g.relatedQ()
@@ -392,7 +398,7 @@ func (g *caseGen) one() {
 		if !enabled || r.Chance(1, 6) {
 			g.out("fail slookup %s %d", q, g.t)
 			if q.scope == "-" || r.Chance(1, 4) {
-				g.out("fail sget %s %d %d %s %d %s", hexName(q.name), q.t, q.c, vlib.B(q.cd), g.t, vlib.B(r.Bool()))
+				g.out("fail sget %s %d %d %s %d %s %s", hexName(q.name), q.t, q.c, vlib.B(q.cd), g.t, vlib.B(r.Bool()), vlib.Pick(r, []string{"plain", "ecsctx", "ecsopt"}))
 				g.out("fail slookupw %s %d %d %s %d", g.wireOf(q), q.t, q.c, vlib.B(q.cd), g.t)
 			}
 			g.out("fail sretrykey %s %d", q, lastRetry+i63(r, 3))
@@ -408,6 +414,12 @@ func (g *caseGen) one() {
 		}
 		g.zs = append(g.zs, z)
 		g.out("fail recz %s %d %d", z, g.step(), 3+r.Intn(3))
+		if r.Chance(1, 3) {
+			if _, ok := wireOfPres(z.zone); ok {
+				// the DS/DNSKEY walk below a failed zone, in a CD / client-ECS request tree
+				g.out("fail sget %s %d %d %s %d %s %s", hexName(z.zone), vlib.Pick(r, []int{43, 48, 1}), z.c, vlib.B(r.Bool()), g.t, vlib.B(r.Bool()), vlib.Pick(r, []string{"plain", "ecsctx", "ecsopt"}))
+			}
+		}
 	case k < 46:
 		g.out("fail %slookup %s %d", g.viaStore(), g.relatedQ(), g.step())
 	case k < 54:
@@ -470,7 +482,7 @@ func (g *caseGen) one() {
 		case 2:
 			g.out("fail sretrykey %s %d", q, g.step())
 		case 3:
-			g.out("fail sget %s %d %d %s %d %s", hexName(q.name), q.t, q.c, vlib.B(q.cd), g.step(), vlib.B(r.Bool()))
+			g.out("fail sget %s %d %d %s %d %s %s", hexName(q.name), q.t, q.c, vlib.B(q.cd), g.step(), vlib.B(r.Bool()), vlib.Pick(r, []string{"plain", "ecsctx", "ecsopt"}))
 		}
 	case k < 94:
 		q := g.relatedQ()
@@ -484,7 +496,11 @@ func (g *caseGen) one() {
 		g.qs = append(g.qs, q)
 		g.out("fail sset %s %s %d", q, vlib.Pick(r, []string{"useful", "nxdomain", "servfail", "refused", "other"}), g.step())
 	case k < 96:
-		g.recovery()
+		if r.Bool() {
+			g.recovery()
+		} else {
+			g.probe()
+		}
 	case k < 97:
 		g.alias2()
 	case k < 98:
@@ -526,6 +542,52 @@ func (g *caseGen) alsoWire(q qspec, t int64) {
 	if w, ok := wireOfPres(q.name); ok {
 		g.out("fail %slookupw %s %d %d %s %d", g.viaStore(), w, q.t, q.c, vlib.B(q.cd), t)
 	}
+}
+
+// several clients arriving together behind one retained failure generation:
+// different names / types / CD bits / ECS audiences below an expired zone
+// failure (one probe), the same exact question from several audiences, and
+// unrelated questions (one leader each).
+func (g *caseGen) probe() {
+	r := g.r
+	zone := "probe" + fmt.Sprint(r.Intn(3)) + ".example.com."
+	cls := 1
+	withZone := r.Chance(3, 4)
+	if withZone {
+		g.zs = append(g.zs, zspec{zone, cls})
+		if r.Bool() {
+			g.out("fail recz %s %d %d", zspec{zone, cls}, g.t, 3)
+		} else {
+			g.out("fail srecz %d %s %d", cls, hexName(zone), g.t)
+		}
+	}
+	scopes := []string{"-", "-", "4:cb007100/24", "4:0a010000/16", "4:c6336400/24", "6:20010db8000000000000000000000000/32"}
+	n := 2 + r.Intn(4)
+	var reqs []string
+	base := qspec{"a." + zone, vlib.Pick(r, []int{1, 28, 16}), cls, false, vlib.Pick(r, scopes)}
+	for i := 0; i < n; i++ {
+		q := base
+		switch r.Intn(5) {
+		case 0: // identical
+		case 1:
+			q.name = fmt.Sprintf("n%d.%s", r.Intn(3), zone)
+		case 2:
+			q.scope = vlib.Pick(r, scopes)
+		case 3:
+			q.t = vlib.Pick(r, []int{1, 28, 16})
+			q.cd = r.Bool()
+		case 4:
+			q.name = fmt.Sprintf("x%d.other%d.example.com.", r.Intn(2), r.Intn(2))
+		}
+		reqs = append(reqs, q.String())
+	}
+	// inside the backoff (served), exactly at / after its end (one probe), much later
+	t := vlib.Pick(r, []int64{g.t + 1, lastRetry - 1, lastRetry, lastRetry + 1, lastRetry + i63(r, g.mx)})
+	if t < g.t {
+		t = g.t
+	}
+	g.t = t
+	g.out("fail probe %d %d %s", g.t, n, strings.Join(reqs, " "))
 }
 
 // fail -> backoff over -> the probe succeeds -> fail again: the second episode
@@ -735,6 +797,8 @@ func genL3(r *vlib.R, tier string, emit func(string), n *int) {
 		emit("fail l3shed " + vlib.Pick(r, []string{"global", "zone", "nested", "nested"}))
 		*n--
 	}
+	emit(fmt.Sprintf("fail l3zone %s,x,%s 0", vlib.Pick(r, fails), vlib.Pick(r, fails))) // one server denies the name: NXDOMAIN, no zone failure
+	*n--
 	emit("fail l3zone s,r,s,s 0") // control: every server fails, the zone failure may be recorded
 	emit(fmt.Sprintf("fail l3zone f,%s,%s 0", vlib.Pick(r, fails), vlib.Pick(r, fails)))
 	*n -= 2
